@@ -172,7 +172,10 @@ def run_route(lg, route, seed=0):
     s0 = ift.makeField(o["dom"], lg.f("s0"))
     if route in ("cl.wfc.inverse", "cl.T.wfc"):
         Nop = o["N"]
-        Sop = ift.DiagonalOperator(ift.makeField(o["dom"], 1. / lg.f("sinv")), sampling_dtype=np.float64)
+        if case.get("scaling_response"):
+            Sop = ift.ScalingOperator(o["dom"], 1., np.float64)
+        else:
+            Sop = ift.DiagonalOperator(ift.makeField(o["dom"], 1. / lg.f("sinv")), sampling_dtype=np.float64)
         icc = ift.GradientNormController(tol_abs_gradnorm=1e-13, iteration_limit=400)
         if route == "cl.wfc.inverse":
             D = ift.WienerFilterCurvature(o["R"], Nop, Sop, icc, None).inverse
@@ -391,6 +394,10 @@ class C20(C.Check):
             cases.append(L.gen_lg_case(rng, i, rkind=rk, noise=noise, cplx=(i % 3 == 1)))
         for i in range(3 if ctx.quick else 10):      # ill-conditioned models (solver-accuracy options)
             cases.append(L.gen_illcond_case(rng, 700 + i))
+        for i in range(2 if ctx.quick else 6):       # classic CG beyond its reset interval
+            cases.append(L.gen_illcond_cg_case(rng, 800 + i))
+        for i in range(2 if ctx.quick else 8):       # identity response / operator simplification paths
+            cases.append(L.gen_identity_case(rng, 900 + i))
         return cases, nokl
 
     def correspondence(self, ctx, res):
@@ -405,8 +412,10 @@ class C20(C.Check):
             routes = JAX_CHEAP + CL_ROUTES
             if case["rkind"] == "illcond":
                 routes = ["re.wf.absdelta", "re.wf.signal", "re.wf.data"]
+            if case["rkind"] == "illcond_cg":
+                routes = ["cl.wfc.inverse", "re.wf.signal"]
             # the expensive driver routes on a subset that always contains rank-deficient cases
-            if case["rkind"] != "illcond" and (ci < len(corpus) or (ci - len(corpus)) < nokl):
+            if case["rkind"] not in ("illcond", "illcond_cg") and (ci < len(corpus) or (ci - len(corpus)) < nokl):
                 routes = routes + JAX_OKL
             for route in routes:
                 out = safe_route(lg, route, seed=ctx.seed)
